@@ -27,7 +27,7 @@ TRUSTED_BASE = ['scipy.spatial.Voronoi / ConvexHull (qhull) as geometric referen
                 'completeness of Sutherland-Hodgman clipping (polygon = cell) not proved: tied by correspondence only',
                 '3-D qhull path: no executable model, implementation-level oracles only']
 ASSUMPTIONS = ['inputs are float32-exact dyadic coordinates: rounding to 15 decimals is the identity up to 1 ulp',
-               'far-corner box [-20M,20M]^2 contains every Voronoi region of a real site (|x|_inf <= 100/9 M, see Voronoi2D.v)']
+               'int(0.99*m) == floor(99 m / 100) (true for the sizes generated: m <= a few hundred)']
 PRE = ('From Coq Require Import QArith List.\nImport ListNotations.\n'
        'From MrVerif Require Import Model.Voronoi1D Model.Voronoi2D.\nOpen Scope Q_scope.\n'
        '(* Coq prints dyadic Q values as hexadecimal fractions: return (numerator, denominator) pairs instead *)\n'
@@ -721,12 +721,12 @@ def descr_traj(c):
 FAMILIES = [
     Family('dcf_1d', gen_1d, impl_1d, coq_1d, PRE, cmp_1d, oracle_1d, nontrivial=lambda c: len(set(c['x'])) >= 2,
            descr=lambda c: {'kind': c['kind']},
-           theorem='C16_1d_code_eq_weight, C16_1d_positive, C16_1d_permutation, C16_1d_scaling, C16_1d_translation, C16_1d_split, C16_1d_interior'),
+           theorem='C16_1d_code_eq_weight, C16_1d_positive, C16_1d_weight_perm, C16_1d_permutation, C16_1d_scaling, C16_1d_translation, C16_1d_split, C16_1d_interior'),
     Family('dcf_2d', gen_2d, impl_2d, coq_2d, PRE, cmp_2d, oracle_2d, nontrivial=nontrivial_2d, descr=lambda c: {'kind': c['kind']},
-           shard=3, theorem='C16_clip_sound, C16_shoelace_*, C16_cell2_*, C16_area_partial'),
+           shard=3, theorem='C16_2d_polygon_in_cell_partial, C16_2d_polygon_in_box, C16_2d_cell_in_start_box, C16_shoelace_*, C16_cell2_*'),
     Family('dcf_3d', gen_3d, impl_3d, None, '', None, oracle_3d, descr=lambda c: {'kind': c['kind']}, theorem='(implementation-level)'),
     Family('from_traj_voronoi', gen_traj, impl_traj, coq_traj, PRE, cmp_traj, oracle_traj, descr=descr_traj, shard=2,
-           theorem='C16_product_cell, C16_from_traj_partial_refuted'),
+           theorem='C16_product_cell, C16_from_traj_decomposition_refuted'),
 ]
 
 
